@@ -826,7 +826,9 @@ where
                 .copy_from_slice(&new_cell.full_data());
             *old_cell.metadata_mut() = *new_cell.metadata();
 
-            self.free_space_pointer_down(free_bytes);
+            // The cell keeps its offset: the bytes it no longer uses lie behind it, not in front
+            // of the lowest cell, so the free space pointer must stay where it is. They are
+            // counted as free space and recovered by the next defragmentation.
             self.add_free_space(free_bytes);
 
             return Ok(owned_cell);
